@@ -8,7 +8,7 @@ From Coq Require Import ZArith List Bool Lia.
 Import ListNotations.
 Require Import Base.Py Base.ZList Model.Id3Spec Model.Id3Frame Gen.Gen_frames
   Proofs.C12_ints Proofs.C12_codec Proofs.C12_specs Proofs.C12_specs2 Proofs.C12_frame Proofs.C12_framing
-  Proofs.C12_tag Proofs.C12_nested.
+  Proofs.C12_tag Proofs.C12_nested Proofs.C12_tagflag.
 Open Scope Z_scope.
 
 (* ---- (a) text codecs: decode (encode s) = s for every list of valid code points, astral planes included *)
@@ -144,6 +144,32 @@ Theorem C12_stored_inflate : forall d, zlen d <= 65535 -> inflate_stored (zlib_s
 Proof. exact inflate_store. Qed.
 Print Assumptions C12_stored_inflate.
 
+(* ---- (g) the tag-level unsynchronisation flag and the frame list.  Every frame of the list is decoded by from_data
+   under the one tag flag g, whatever its position (collect g: the k-th outcome is from_data ... g ... of the k-th stored
+   frame, for every k; nothing a frame does can change the flag seen by the frames stored after it) *)
+Theorem C12_tag_flag_every_position : forall sub ver tbl22 tbl bits xs fuel g,
+  Forall (stored_ok tbl bits) xs -> (length (concat (map stored_bytes xs)) < fuel)%nat ->
+  frames_loop sub ver fuel g tbl22 tbl bits (concat (map stored_bytes xs)) = collect sub ver g xs.
+Proof. exact frames_loop_collect. Qed.
+Print Assumptions C12_tag_flag_every_position.
+
+(* v2.4: a tag whose frames rely on the tag flag (bodies unsynchronised, own flag 0x0002 set or not, frame by frame)
+   reads like the plain tag, nested CHAP/CTOC readers included (the nested reader never sees the tag flag) *)
+Theorem C12_tag_flag_v24_agrees : forall d xs,
+  Forall (flagged_ok (sub_of frames_2_2 all_frames 4 d false) all_frames) xs ->
+  determine_bpi all_frames (concat (map stored_bytes (map as_unsynch xs))) = true ->
+  determine_bpi all_frames (concat (map stored_bytes (map as_plain xs))) = true ->
+  tag_read frames_2_2 all_frames 4 (S d) true (concat (map stored_bytes (map as_unsynch xs))) =
+  tag_read frames_2_2 all_frames 4 (S d) false (concat (map stored_bytes (map as_plain xs))).
+Proof. exact (tag_read_tagflag_v24 frames_2_2 all_frames). Qed.
+Print Assumptions C12_tag_flag_v24_agrees.
+
+(* v2.2 and v2.3 (every version below 2.4): a frame area unsynchronised as a whole reads like the plain one, for ANY bytes *)
+Theorem C12_whole_tag_unsynch_v22_v23 : forall ver d data, ver < 4 ->
+  tag_read frames_2_2 all_frames ver d true (fr_unsynch_encode data) = tag_read frames_2_2 all_frames ver d false data.
+Proof. exact (tag_read_whole_tag_unsynch frames_2_2 all_frames). Qed.
+Print Assumptions C12_whole_tag_unsynch_v22_v23.
+
 (* ---- non-vacuity: the hypotheses are satisfiable, the degenerate v2.3 case is excluded by frame_valid *)
 Example C12_ex_apic :
   let vs := [VInt 1; VText [105;109;97;103;101;47;112;110;103]; VInt 3; VText [128512; 233]; VBytes [255; 0; 0]] in
@@ -187,3 +213,27 @@ Example C12_bpi_heuristic_refuted :
   | Raise _ => False
   end.
 Proof. vm_compute. repeat split. Qed.
+
+(* hypotheses of C12_tag_flag_v24_agrees: a CHAP frame stored BEFORE a PRIV frame whose payload needs the tag flag *)
+Example C12_ex_tagflag :
+  let dc := [99; 0; 255; 255; 255; 255; 0; 0; 0; 1; 255; 0; 0; 0; 0; 0; 255; 224] in
+  let chap := mkFlagged fr_CHAP dc [0; 0; 0; zlen dc] [0; 0; 0; zlen (fr_unsynch_encode dc)] false in
+  let priv := mkFlagged fr_PRIV [97; 0; 255; 0; 255] [0; 0; 0; 5] [0; 0; 0; 7] true in
+  let tit2 := mkFlagged fr_TIT2 [0; 255; 254] [0; 0; 0; 3] [0; 0; 0; 4] false in
+  let xs := [chap; priv; tit2] in
+  let ok := flagged_ok (sub_of frames_2_2 all_frames 4 1 false) all_frames in
+  ok chap /\ ok priv /\ ok tit2 /\
+  determine_bpi all_frames (concat (map stored_bytes (map as_unsynch xs))) = true /\
+  determine_bpi all_frames (concat (map stored_bytes (map as_plain xs))) = true /\
+  match tag_read frames_2_2 all_frames 4 2 true (concat (map stored_bytes (map as_unsynch xs))) with
+  | Ok p => map fst (p_frames p) = [fr_id fr_CHAP; fr_id fr_PRIV; fr_id fr_TIT2] /\
+            map snd (tl (p_frames p)) = [[VText [97]; VBytes [255; 0; 255]]; [VInt 0; VList [VText [255; 254]]]]
+  | Raise _ => False
+  end.
+Proof. vm_compute. repeat split; try reflexivity; intro E; discriminate E. Qed.
+
+Example C12_ex_v22_tag_unsynch :
+  let tt2 := [84; 84; 50; 0; 0; 3; 0; 255; 254] in
+  tag_read frames_2_2 all_frames 2 1 true (fr_unsynch_encode tt2) =
+    Ok (mkParsed [(fr_id fr_TT2, [VInt 0; VList [VText [255; 254]]])] [] []).
+Proof. vm_compute. reflexivity. Qed.
